@@ -4,3 +4,4 @@ set -e
 cd "$(dirname "$0")/harness"
 export CARGO_NET_OFFLINE=true
 cargo build --release --offline
+gcc -shared -fPIC -O2 -o /verif/.target/getrandom_shim.so /verif/harness/shim/getrandom_shim.c
